@@ -245,13 +245,38 @@ class Flow:
                 old = self.instate.get(tgt)
                 new = ns if old is None else (old | ns)
                 if len(new) > MAXV:
-                    common = None
-                    for v in new:
-                        common = v.lits if common is None else (common & v.lits)
-                    new = frozenset([Val(common or ())])
+                    new = self.widen(new)
                 if old is None or new != old:
                     self.instate[tgt] = new
                     work.append(tgt)
+
+    def widen(self, vals):
+        """Too many valuations: forget whole atoms (weakening every valuation, merging those that become equal) until
+        at most MAXV remain.  Atoms that occur with both polarities are forgotten first (they are what multiplies the
+        valuations), then atoms only some valuations know; atoms named in `self.protect` go last.  An atom that every
+        valuation holds with the same polarity is never touched, so the result keeps at least what the plain
+        intersection of all valuations would."""
+        protect = getattr(self, "protect", ())
+        vals = set(vals)
+        while len(vals) > MAXV:
+            cnt = {}
+            for v in vals:
+                for (l, p) in v.lits:
+                    c = cnt.setdefault(l, [0, 0])
+                    c[1 if p else 0] += 1
+            n = len(vals)
+            cand = []
+            for l, (f, t) in cnt.items():
+                if f + t == n and (f == 0 or t == 0):
+                    continue
+                prot = 1 if (l[:-1] in protect or l[0] == "emitted") else 0
+                cand.append((prot, -min(f, t), f + t, repr(l), l))
+            if not cand:
+                break
+            cand.sort(key=lambda x: x[:4])
+            drop = cand[0][4]
+            vals = set(Val(x for x in v.lits if x[0] != drop) for v in vals)
+        return frozenset(vals)
 
     def edge_lits(self, b, t):
         """Optional per-edge literals for non-boolean switches (overridden by clients)."""
